@@ -135,6 +135,11 @@ def plain_keys(ent):
     return {tuple(int(c) for c in k): v for k, v in ent.items()}
 
 
+SAVE_MODES = ["wb", "w+b", "ab", "r+b", "a+b", "wb"]
+SAVE_COUNT = [0]
+LAST_SAVE_MODE = [None]
+
+
 def save_bytes(case, path=None):
     """Run the real IndxIO.save into a real file; return its bytes."""
     from catii.indxio import IndxIO
@@ -142,7 +147,11 @@ def save_bytes(case, path=None):
     fd, p = tempfile.mkstemp(prefix="vf-indx-", dir=TMPDIR)
     os.close(fd)
     try:
-        with open(p, "wb") as f:
+        # the (empty) target file is opened in every writing mode in turn - truncating, updating, appending
+        mode = SAVE_MODES[SAVE_COUNT[0] % len(SAVE_MODES)]
+        SAVE_COUNT[0] += 1
+        LAST_SAVE_MODE[0] = mode
+        with open(p, mode) as f:
             IndxIO.save(f, entries_dict(case), int(case["common"]), numpy.dtype(U32))
         with open(p, "rb") as f:
             return f.read()
